@@ -64,7 +64,7 @@ def run_shard(spec):
             pol = ("sweep", "boundary") if spec["tier"] == "quick" else ("sweep", "boundary", "two_delay", "random")
             res = conc.explore(prog, runner, r, spec["tier"],
                                {"cls": prog["cls"], "stratum": spec["stratum"], "topology": meta["topology"]},
-                               policies=pol)
+                               policies=pol, deadline=t0 + BUDGET[spec["tier"]] * 1.5)
         finally:
             runner.close()
         out["evaluations"] += res["runs"]
